@@ -22,12 +22,13 @@ type FuncReport struct {
 }
 
 type Report struct {
-	Dir     string        `json:"dir"`
-	Funcs   []*FuncReport `json:"funcs"`
-	Results []*Result     `json:"results"`
-	Errors  []string      `json:"errors,omitempty"`
-	WallS   float64       `json:"wall_s"`
-	Unused  []string      `json:"unused_contracts,omitempty"`
+	Dir     string          `json:"dir"`
+	Funcs   []*FuncReport   `json:"funcs"`
+	Results []*Result       `json:"results"`
+	Errors  []string        `json:"errors,omitempty"`
+	WallS   float64         `json:"wall_s"`
+	Unused  []string        `json:"unused_contracts,omitempty"`
+	Stale   []StaleContract `json:"stale_contracts,omitempty"`
 }
 
 type multiFlag []string
@@ -243,9 +244,19 @@ func main() {
 	for k, c := range eng.contracts.Funcs {
 		if !c.Used && !c.Extern {
 			rep.Unused = append(rep.Unused, k)
+			// a contract whose function does not exist (renamed or deleted): its obligations cannot be generated
+			if eng.funcs[k] == nil && *only == "" {
+				var ps []string
+				for p := range c.Props {
+					ps = append(ps, p)
+				}
+				sort.Strings(ps)
+				rep.Stale = append(rep.Stale, StaleContract{Key: k, Props: ps})
+			}
 		}
 	}
 	sort.Strings(rep.Unused)
+	sort.Slice(rep.Stale, func(i, j int) bool { return rep.Stale[i].Key < rep.Stale[j].Key })
 	rep.WallS = time.Since(t0).Seconds()
 	enc, _ := json.MarshalIndent(rep, "", " ")
 	if *out != "" {
@@ -280,6 +291,12 @@ func main() {
 
 // effectiveProps: the properties an obligation is attributed to. Tagged clauses carry their own
 // tags; untagged obligations (safety, frame, invariants, canaries) are attributed by kind.
+// StaleContract is a contract of the contract file for which the package has no function.
+type StaleContract struct {
+	Key   string   `json:"key"`
+	Props []string `json:"props"`
+}
+
 func effectiveProps(o *Obligation, fprops []string, tier2 bool) []string {
 	if len(o.Props) > 0 {
 		return o.Props
